@@ -5,10 +5,8 @@ cd /verif
 export GOFLAGS=-mod=mod GOPROXY=off GOSUMDB=off GOTOOLCHAIN=local
 mkdir -p build evidence
 python3 tools/gen_all.py
-cd coq
-coq_makefile -f _CoqProject -o Makefile
-timeout 3000 make -j16
-cd /verif
+python3 -c "import sys; sys.path.insert(0,'/verif/harness/py'); import vlib; vlib.coq_makefile()"
+(cd coq && timeout 3000 make -j16)
 # warm the Go build cache with the overlay-injected harness packages
 python3 - <<'PY'
 import sys
